@@ -29,9 +29,10 @@ func NewRamp(t *rapid.T, big bool) *Ramp {
 	r.Reuse = rapid.SampledFrom([]int{1, 1, 2, 5}).Draw(t, "reuse")
 	r.Sizes = []int{0, 1, 40, 130, 200, 300}
 	if big {
-		// first entries are favoured by rapid: make crossing 65,535 the common case,
-		// in one batch (66000) or cumulatively (20000 + 40000 + ...)
-		r.Sizes = []int{66000, 40000, 20000, 300, 1}
+		// first entries are favoured by rapid: make crossing 65,535 distinct
+		// values the common case - cumulatively (60000 + 40000 + ...), because a
+		// single batch must stay within the 65,535 parents of the id width
+		r.Sizes = []int{60000, 40000, 20000, 300, 1}
 	}
 	r.Wide = rapid.Bool().Draw(t, "wide")
 	return r
@@ -40,6 +41,9 @@ func NewRamp(t *rapid.T, big bool) *Ramp {
 // ids draws the ids of one batch: n ids, a fraction of them fresh.
 func (r *Ramp) ids() []int {
 	n := rapid.SampledFrom(r.Sizes).Draw(r.T, "rampn")
+	if max := 65000 / r.Reuse; n > max {
+		n = max // domain: at most 65,535 attribute-bearing parents per batch
+	}
 	fresh := rapid.SampledFrom([]int{0, 10, 50, 100, 100}).Draw(r.T, "freshpct")
 	out := make([]int, 0, n)
 	if n > 2000 {
